@@ -302,6 +302,13 @@ class Connection(object):
         self._logger.debug('Received %d octets (%s)',
                            len(data), self._conn_name())
         self.recv_raw(data)
+        # octets of a TLS record which the SSL object has already taken
+        # from the socket do not make it readable again
+        while sock is self.__s_tls and sock.pending() > 0:
+            data = sock.recv(self.CHUNK_SIZE)
+            if not data:
+                break
+            self.recv_raw(data)
         return True
 
     def recv_raw(self, data):
